@@ -50,7 +50,9 @@ where
     }
 
     let source = self.source.clone();
-    let subject = self.subject.clone();
+    // not `self.subject.clone()`: the hook below is stored in the subject, a clone captured by it
+    // would keep the subject, the source and this hook alive for ever
+    let subject = self.subject.emitter();
     let subscription = Arc::clone(&self.subscription);
 
     self.subject.set_on_subscribe(move |count| {
